@@ -71,7 +71,8 @@ def run(ctx):
                 if strs(parts) != want:
                     rep("split-pieces", "Split(%r, %r) = %s, spec pieces %s" % (txt, sepc, strs(parts), want))
     if quick:
-        fv = [v for v in fv if len(v["tpl"]) > 6] + rnd.sample(fv, 40000)
+        oneph = lambda v: len(v["tpl"]) > 6 or (len(v["tpl"]) >= 2 and v["tpl"][0] == "{" and v["tpl"][-1] == "}" and v["tpl"].count("{") == 1 and v["tpl"].count("}") == 1)
+        fv = [v for v in fv if oneph(v)] + rnd.sample([v for v in fv if not oneph(v)], 40000)
     fcases = [dict(v, id=i, rep=(i + ctx.seed) % 10) for i, v in enumerate(fv)]
     for c in fcases: c.pop("k", None)
     fres = common.run_harness(ctx, znh, "fmt", fcases, timeout=2500)
@@ -149,7 +150,7 @@ def run(ctx):
                evaluations=len(tcases) * 7 + nruns, distinct_nontrivial=len(tcases) + len(fcases),
                rule="text: all texts <= 4 over 5 width classes (ASCII, 2-byte, CJK, astral, combining mark) x index pairs from {-6,-2,-1,0..6}: 长度/字数, 字符组, 分隔 by the "
                     "empty text, 取样 (characters i..j inside 1<=i<=j<=len; elsewhere a catchable error or a run of whole characters), Join(Split(s,sep),sep)=s and the "
-                    "spec's pieces for one separator per class; format: all templates <= %d over {text,{,},#,+,.,digit,E,%%} scanned by the spec machine (segments, "
+                    "spec's pieces for one separator per class; format: all templates <= %d over {text,blank,{,},#,+,.,0,2,E,%%} (the blank as space, TAB, LF, CR, CRLF, U+3000, NBSP ...; every single placeholder with a directive of up to 5 (6) directive symbols; one-placeholder templates with each of 20 numbers incl. products with 100 next to a rounding tie, tiny and huge magnitudes) scanned by the spec machine (segments, "
                     "directive plan or error) x 4 argument shapes (numbers, other plain values, one short, one long): result text or error must agree; numeric digits are "
                     "strconv's for the verb/precision/sign the spec selected (quick: seeded 30000 text and 40000 template vectors)" % (5 if quick else 6),
                text_vectors=len(tcases), fmt_vectors=len(fcases), fmt_runs=nruns)
